@@ -7,7 +7,7 @@ import shutil
 from harness import core
 from harness.core import Z, zlist
 from harness.main import Finding, Suite
-from harness.props import c02
+from harness.props import c02, c06
 from harness.readers import call, judge_read
 
 PROPERTY = "C10"
@@ -625,4 +625,5 @@ class StorageSuite(Suite):
         return {"n": len(case["sizes"]), "sorted": case["order"] == sorted(case["order"])}
 
 
-SUITES = {"multi": MultiSuite(), "parse": ParseSuite(), "storage": StorageSuite()}
+# hdd_split: HDD.open() over 2..4 storages, each with its own snapshot chain (assembly + independence of the storages)
+SUITES = {"multi": MultiSuite(), "parse": ParseSuite(), "storage": StorageSuite(), "hdd_split": c06.HddSplit()}
